@@ -82,6 +82,10 @@ type Call struct {
 	Rewindable bool   `json:"rewindable,omitempty"`
 	Data       []byte `json:"data,omitempty"`
 	Wops       []Wop  `json:"wops,omitempty"`
+	// Passes: a listing's sequence value is iterated again, once per entry, with that budget
+	// (-1 = the consumer never stops), whatever the way the pass before ended (normal end, early
+	// stop, an error yielded, items then an error)
+	Passes []int `json:"passes,omitempty"`
 }
 
 type Input struct {
@@ -119,6 +123,9 @@ type Observed struct {
 	Reqs     []ReqObs `json:"reqs"`
 	Reads    []int64  `json:"reads"`
 	PanicVal string   `json:"panic,omitempty"`
+	// More: what the later passes over the same sequence value gave (requests and reads are
+	// the ones made during that pass)
+	More []Observed `json:"more,omitempty"`
 }
 
 // ---------------------------------------------------------------- scripted transport
@@ -218,7 +225,8 @@ func descTok(d ociregistry.Descriptor) Tok {
 
 func isListing(op string) bool { return op == "Repositories" || op == "Tags" || op == "Referrers" }
 
-func execute(c ociregistry.Interface, cl Call, toks *[]Tok) {
+// execute runs the call; mark is called between two passes over a sequence value
+func execute(c ociregistry.Interface, cl Call, toks *[]Tok, mark func()) {
 	ctx := context.Background()
 	add := func(t Tok) { *toks = append(*toks, t) }
 	readAll := func(rd ociregistry.BlobReader, err error) {
@@ -302,10 +310,21 @@ func execute(c ociregistry.Interface, cl Call, toks *[]Tok) {
 		add(Tok{K: "int", Int: w.Size()})
 		add(Tok{K: "int", Int: int64(w.ChunkSize())})
 	}
-	calls := 0
+	calls, budget := 0, cl.Budget
 	more := func() bool {
 		calls++
-		return cl.Budget < 0 || calls <= cl.Budget
+		return budget < 0 || calls <= budget
+	}
+	// passes iterates the sequence value, then again once per entry of cl.Passes
+	passes := func(one func()) {
+		one()
+		add(Tok{K: "ok"})
+		for _, b := range cl.Passes {
+			mark()
+			calls, budget = 0, b
+			one()
+			add(Tok{K: "ok"})
+		}
 	}
 	switch cl.Op {
 	case "GetBlob":
@@ -353,25 +372,28 @@ func execute(c ociregistry.Interface, cl Call, toks *[]Tok) {
 		} else {
 			seq = c.Tags(ctx, cl.Repo, cl.Start)
 		}
-		seq(func(x string, err error) bool {
-			if err != nil {
-				add(errTok(err))
-				return true
-			}
-			add(Tok{K: "bytes", Bytes: []byte(x)})
-			return more()
+		passes(func() {
+			seq(func(x string, err error) bool {
+				if err != nil {
+					add(errTok(err))
+					return true
+				}
+				add(Tok{K: "bytes", Bytes: []byte(x)})
+				return more()
+			})
 		})
-		add(Tok{K: "ok"})
 	case "Referrers":
-		c.Referrers(ctx, cl.Repo, ociregistry.Digest(cl.Digest), cl.Art)(func(d ociregistry.Descriptor, err error) bool {
-			if err != nil {
-				add(errTok(err))
-				return true
-			}
-			add(descTok(d))
-			return more()
+		seq := c.Referrers(ctx, cl.Repo, ociregistry.Digest(cl.Digest), cl.Art)
+		passes(func() {
+			seq(func(d ociregistry.Descriptor, err error) bool {
+				if err != nil {
+					add(errTok(err))
+					return true
+				}
+				add(descTok(d))
+				return more()
+			})
 		})
-		add(Tok{K: "ok"})
 	default:
 		panic("harness: unknown op " + cl.Op)
 	}
@@ -387,10 +409,14 @@ func runCaseLocal(in Input) Observed {
 	}
 	var toks []Tok
 	var pval string
+	// where each later pass starts: index into toks, into the request log
+	type cut struct{ tok, req int }
+	var cuts []cut
+	mark := func() { cuts = append(cuts, cut{len(toks), len(tr.reqs)}) }
 	done := make(chan struct{})
 	go func() {
 		defer close(done)
-		panicked, val := hx.Recover(func() { execute(c, in.Call, &toks) })
+		panicked, val := hx.Recover(func() { execute(c, in.Call, &toks, mark) })
 		if panicked {
 			pval = val
 			if !isListing(in.Call.Op) {
@@ -410,7 +436,16 @@ func runCaseLocal(in Input) Observed {
 			reads[i] = b.read
 		}
 	}
-	return Observed{Toks: toks, Reqs: tr.reqs, Reads: reads, PanicVal: pval}
+	if len(cuts) == 0 {
+		return Observed{Toks: toks, Reqs: tr.reqs, Reads: reads, PanicVal: pval}
+	}
+	cuts = append(cuts, cut{len(toks), len(tr.reqs)})
+	ob := Observed{Toks: toks[:cuts[0].tok], Reqs: tr.reqs[:cuts[0].req], Reads: reads[:cuts[0].req], PanicVal: pval}
+	for i := 0; i+1 < len(cuts); i++ {
+		a, b := cuts[i], cuts[i+1]
+		ob.More = append(ob.More, Observed{Toks: toks[a.tok:b.tok], Reqs: tr.reqs[a.req:b.req], Reads: reads[a.req:b.req]})
+	}
+	return ob
 }
 
 // ---------------------------------------------------------------- isolation
@@ -1053,13 +1088,54 @@ type gen struct {
 	seen  map[string]bool
 	pend  []pending
 	hangs int
+	nlist int
 }
 
 type pending struct {
-	in     Input
-	ob     Observed
+	in     Input    // what goes to Coq: for a later pass, that pass as a call of its own
+	ob     Observed // (see passCases)
 	origin string
 	kind   string
+	full   Input    // what was run (and what a replay runs again)
+	fullOb Observed
+	pass   int
+}
+
+// defaultPasses: how the sequence value of a generated listing case is iterated again; the
+// patterns rotate over the cases
+var defaultPasses = [][]int{{-1}, {0, -1}, {1, -1, -1}, {-1, 2}}
+
+// passCases splits a run into one case per pass.  A pass over the sequence value that
+// Repositories / Tags returned is an operation of its own: it starts from the first request
+// again, and the server goes on with the answers it has left, so it is the same call against
+// the rest of the script.  The sequence value of Referrers holds what the one request made by
+// the call gave: a pass sends nothing and yields what a call against the same answers yields.
+func passCases(in Input, ob Observed) (ins []Input, obs []Observed) {
+	first := ob
+	first.More = nil
+	one := in
+	one.Call.Passes = nil
+	ins, obs = append(ins, one), append(obs, first)
+	used := len(ob.Reqs)
+	for i, m := range ob.More {
+		if i >= len(in.Call.Passes) {
+			break
+		}
+		sub := one
+		sub.Call.Budget = in.Call.Passes[i]
+		if in.Call.Op == "Referrers" {
+			m.Reqs = append(append([]ReqObs{}, ob.Reqs...), m.Reqs...)
+			m.Reads = append(append([]int64{}, ob.Reads...), m.Reads...)
+		} else {
+			if used > len(in.Script) {
+				used = len(in.Script)
+			}
+			sub.Script = in.Script[used:]
+			used += len(m.Reqs)
+		}
+		ins, obs = append(ins, sub), append(obs, m)
+	}
+	return ins, obs
 }
 
 func (g *gen) add(in Input, origin string) {
@@ -1072,6 +1148,10 @@ func (g *gen) add(in Input, origin string) {
 	if in.Call.BufSz == 0 {
 		in.Call.BufSz = 7
 	}
+	if isListing(in.Call.Op) && in.Call.Passes == nil && origin != "replay" && origin != "corpus" {
+		in.Call.Passes = defaultPasses[g.nlist%len(defaultPasses)]
+		g.nlist++
+	}
 	js, _ := json.Marshal(in)
 	if g.seen[string(js)] {
 		return
@@ -1083,22 +1163,26 @@ func (g *gen) add(in Input, origin string) {
 		panic(err)
 	}
 	in = own
-	ob := runCase(in)
-	kind := "value"
-	for _, t := range ob.Toks {
-		if t.K == "err" {
-			kind = "error"
+	fullOb := runCase(in)
+	ins, obs := passCases(in, fullOb)
+	for i := range ins {
+		ob := obs[i]
+		kind := "value"
+		for _, t := range ob.Toks {
+			if t.K == "err" {
+				kind = "error"
+			}
 		}
-	}
-	for _, t := range ob.Toks {
-		if t.K == "panic" || t.K == "hang" {
-			kind = t.K
+		for _, t := range ob.Toks {
+			if t.K == "panic" || t.K == "hang" {
+				kind = t.K
+			}
 		}
+		if kind == "hang" {
+			g.hangs++
+		}
+		g.pend = append(g.pend, pending{ins[i], ob, origin, kind, in, fullOb, i + 1})
 	}
-	if kind == "hang" {
-		g.hangs++
-	}
-	g.pend = append(g.pend, pending{in, ob, origin, kind})
 }
 
 // flush writes the pending cases: a first pass counts the strings, the frequent ones go to
@@ -1135,8 +1219,26 @@ func (g *gen) flush() error {
 	g.out.Extra["shared_strings"] = len(ks)
 	for _, p := range g.pend {
 		in, ob := p.in, p.ob
-		if g.out.Add(hx.Case{Coq: coqCase(in, ob), Desc: map[string]any{"input": in, "observed": ob, "origin": p.origin},
-			Tags: map[string]any{"class": in.Call.Op + "/" + p.kind, "op": in.Call.Op, "observed_kind": p.kind}}) {
+		class := in.Call.Op + "/" + p.kind
+		if p.pass > 1 {
+			class += "/iterated-again"
+		}
+		if g.out.Add(hx.Case{Coq: coqCase(in, ob), Desc: map[string]any{"input": p.full, "observed": p.fullOb, "pass": p.pass, "origin": p.origin},
+			Tags: map[string]any{"class": class, "op": in.Call.Op, "observed_kind": p.kind}}) {
+			if p.pass > 1 {
+				g.out.Count("pass>1")
+				g.out.Count("pass>1:outcome:" + p.kind)
+				if len(ob.Toks) > 1 {
+					g.out.Count("pass>1:yields")
+				}
+				prev := p.fullOb.Toks
+				if p.pass > 2 && p.pass-3 < len(p.fullOb.More) {
+					prev = p.fullOb.More[p.pass-3].Toks
+				}
+				if len(prev) >= 2 && prev[len(prev)-2].K == "err" {
+					g.out.Count("pass>1:after-error")
+				}
+			}
 			g.out.Count("op:" + in.Call.Op)
 			g.out.Count("origin:" + p.origin)
 			g.out.Count("outcome:" + p.kind)
@@ -1318,6 +1420,72 @@ func headerValues(key string, body []byte) []string {
 	return nil
 }
 
+// Truncated spellings: what is left of a well-formed value when the server (or a proxy) cut
+// it short or sent only its tail.  A parser that tests for a prefix, a unit, a bracket or a
+// separator and then slices past it meets the value that ends right there.
+func isAlnum(c byte) bool {
+	return c >= '0' && c <= '9' || c >= 'a' && c <= 'z' || c >= 'A' && c <= 'Z'
+}
+
+// truncations gives proper prefixes of v (all the short ones, every one that ends at or just
+// before a separator, the longest two) and proper suffixes (those that start at or just after a
+// separator, the shortest three)
+func truncations(v string) []string {
+	n := len(v)
+	var out []string
+	edge := func(p int) bool { return !isAlnum(v[p-1]) || !isAlnum(v[p]) }
+	for p := 1; p < n; p++ {
+		if p <= 8 || p >= n-2 || edge(p) {
+			out = append(out, v[:p])
+		}
+	}
+	for p := 1; p < n; p++ {
+		if n-p <= 3 || edge(p) {
+			out = append(out, v[p:])
+		}
+	}
+	return out
+}
+
+// the well-formed values whose truncated spellings are tried for a header, besides the value
+// the well-behaved answer carries
+func wellFormed(key string, body []byte) []string {
+	switch key {
+	case "Content-Type":
+		return []string{"application/json; charset=utf-8"}
+	case "Docker-Content-Digest":
+		return []string{dig256(body), string(digest.SHA512.FromBytes(body))}
+	case "Content-Range":
+		return []string{"bytes 0-4/5", "bytes 10-14/150", "bytes */5"}
+	case "Location":
+		return []string{locOK, "https://other.example/up?x=1"}
+	case "Range":
+		return []string{"0-9", "10-19", "bytes=0-9", "bytes 0-9"}
+	case "Oci-Chunk-Min-Length":
+		return []string{"10", "9223372036854775807"}
+	case "Link":
+		return []string{`</v2/_catalog?n=2&last=b>; rel="next"`, `<https://registry.example/v2/foo/bar/tags/list?last=t2&n=2>; rel="next"`}
+	}
+	return nil
+}
+
+func truncatedValues(key, goodValue string, body []byte) []string {
+	seen := map[string]bool{"": true}
+	for _, v := range headerValues(key, body) {
+		seen[v] = true
+	}
+	var out []string
+	for _, v := range append([]string{goodValue}, wellFormed(key, body)...) {
+		for _, t := range truncations(v) {
+			if !seen[t] {
+				seen[t] = true
+				out = append(out, t)
+			}
+		}
+	}
+	return out
+}
+
 var listBodies = [][]byte{
 	nil, []byte(`{}`), []byte(`{"repositories":[]}`), []byte(`{"repositories":["a"]}`), []byte(`{"repositories":["a","b"]}`), []byte(`{"repositories":["a","b","c"]}`),
 	[]byte(`{"tags":[]}`), []byte(`{"name":"n","tags":["t1"]}`), []byte(`{"name":"n","tags":["t1","t2"]}`), []byte(`{"tags":["t1","t2","t3"]}`), []byte(`{"tags":null}`),
@@ -1395,6 +1563,11 @@ func (g *gen) enumerate() {
 						s[step].Header = with(good[step].Header, key, v, vals[i+1])
 						g.add(Input{Call: cl, Script: s}, "header-contradictory")
 					}
+				}
+				for _, v := range truncatedValues(key, firstHeader(good[step], key), good[step].data()) {
+					s := cloneScript(good)
+					s[step].Header = with(good[step].Header, key, v)
+					g.add(Input{Call: cl, Script: s}, "header-truncated")
 				}
 				// the same header under a non-canonical key is not seen by Header.Get
 				s = cloneScript(good)
@@ -1559,6 +1732,31 @@ func (g *gen) enumerate() {
 			g.add(Input{Call: c, Script: s}, "arguments")
 		}
 	}
+	// 6b. truncated caller arguments: a digest cut short, given to every call that takes one
+	// (with the answer's own digest header and without it), an upload ID cut short
+	for _, dg := range truncations(digOK) {
+		for _, cl := range baseCalls {
+			if cl.Digest == "" || cl.Op == "PushBlobChunked" || cl.Op == "PushBlobChunkedResume" {
+				continue
+			}
+			c := cl
+			c.Digest = dg
+			s := goodScript(cl)
+			g.add(Input{Call: c, Script: s}, "arguments-truncated")
+			for i := range s {
+				s[i].Header = with(s[i].Header, "Docker-Content-Digest")
+			}
+			g.add(Input{Call: c, Script: s}, "arguments-truncated")
+		}
+		cl := Call{Op: "PushBlobChunked", Repo: repoOK, ChunkSize: 4, Wops: []Wop{{Op: "write", Data: []byte("abcdef")}, {Op: "commit", Digest: dg}, {Op: "size"}}}
+		g.add(Input{Call: cl, Script: goodScript(cl)}, "arguments-truncated")
+	}
+	for _, id := range truncations("https://registry.example" + locOK + "?state=1") {
+		for _, off := range []int64{-1, 3} {
+			cl := Call{Op: "PushBlobChunkedResume", Repo: repoOK, ID: id, Offset: off, ChunkSize: 3, Wops: []Wop{{Op: "write", Data: []byte("abcd")}, {Op: "commit", Digest: digOK}}}
+			g.add(Input{Call: cl, Script: goodScript(cl)}, "arguments-truncated")
+		}
+	}
 	g.add(Input{Call: Call{Op: "PushManifest", Repo: repoOK, Tag: tagOK, Contents: []byte("{}"), Media: ""}, Script: goodScript(Call{Op: "PushManifest"})}, "arguments")
 	g.add(Input{Call: Call{Op: "PushManifest", Repo: repoOK, Tag: "", Contents: nil, Media: "m"}, Script: goodScript(Call{Op: "PushManifest"})}, "arguments")
 	// 7. redirect chains
@@ -1678,7 +1876,7 @@ func (g *gen) enumerate() {
 		}
 	}
 	// the status answer of a resume: Range and OCI-Chunk-Min-Length in every form
-	for _, r := range ranges {
+	for _, r := range append(append([]string{}, ranges...), truncatedValues("Range", "", nil)...) {
 		for _, m := range []string{"", "3", "9223372036854775807"} {
 			cl := Call{Op: "PushBlobChunkedResume", Repo: repoOK, ID: locOK, Offset: -1, ChunkSize: 4,
 				Wops: []Wop{{Op: "size"}, {Op: "write", Data: []byte("xy")}, {Op: "write", Data: []byte("0123456789")}, {Op: "commit", Digest: digOK}}}
@@ -1742,6 +1940,10 @@ func (g *gen) randomItem(cl Call) Item {
 			it.Header = with(it.Header, key)
 		case 1, 2:
 			it.Header = with(it.Header, key, g.pick(headerValues(key, it.data())))
+		case 4:
+			if vs := truncatedValues(key, firstHeader(it, key), it.data()); len(vs) > 0 {
+				it.Header = with(it.Header, key, g.pick(vs))
+			}
 		case 3:
 			vs := headerValues(key, it.data())
 			it.Header = with(it.Header, key, g.pick(vs), g.pick(vs))
